@@ -1,6 +1,131 @@
-import HranoModel.Model.Options
-import HranoModel.Model.Sink
-import HranoModel.Model.Chan
-/-! C01 property theorems (statements only in this file; helper lemmas live in Lemmas/) -/
+import HranoModel.Lemmas.ResolveAll
+/-!
+C01 — nested recipes resolve to the exact sum-of-products of their ingredients.
+
+Property theorems only (helper lemmas: `Lemmas/Resolve*.lean`).  The model is `Resolver.resolveNode /
+resolveAll` (`Model/Resolver.lean`, the code after the fix recorded in known-findings.txt: in-place
+replacement plus recorded heights).  One model function serves both public Go entry points
+(`Resolver.Resolve` delegates to `Resolve`); the correspondence check runs both.
+
+Specification (`Spec/Resolve.lean`): `specNode B N x = some (height, paths)` where `paths` has one
+`(leaf, product of the quantities along the path)` entry per ingredient path from `x` to a name the
+book does not define, and `Resolved paths els` says `els` is sorted by name, has no duplicate, lists
+exactly the leaves of the paths and gives each the sum over its paths.  `Chain B x k`: a chain of `k`
+ingredient references starts at `x`.  Quantities are exact rationals.
+-/
 namespace Hrano.C01
+open Hrano Hrano.Spec Hrano.Resolver
+
+/-- **Resolve is correct.**  If no chain of `N` or more references starts at a visited name, then for
+    every visiting order that covers the book, resolution succeeds, keeps the recipe names, and leaves
+    under every recipe exactly the resolved form of its ingredient paths: one amount per reachable
+    basic element (the sum over all paths of the products), sorted by name, without duplicates, and no
+    recipe name left unexpanded. -/
+theorem resolve_correct (B : Book) (N : Nat) (order : List Bytes)
+    (hcover : ∀ n ∈ B.keys, n ∈ order)
+    (hdepth : ∀ n ∈ order, ¬ Chain B n N) :
+    ∃ B', resolveAll (N : Int) B order = .ok B' ∧ B'.keys = B.keys ∧
+      ∀ n ∈ B.keys, ∃ h ps els, specNode B N n = some (h, ps) ∧ B'.lookup n = some els ∧ Resolved ps els
+        ∧ ∀ p ∈ ps, B.lookup p.name = none := by
+  have hall : ∀ n ∈ order, specNode B N n ≠ none := fun n hn hnone => hdepth n hn ((specNode_none_iff_chain B N n).mp hnone)
+  obtain ⟨st', hgo, hinv, _, hdone⟩ := go_ok B N order _ (inv_init B) hall
+  refine ⟨st'.db, hgo, hinv.keys, ?_⟩
+  intro n hn
+  have hrec : (B.lookup n).isSome := Book.lookup_isSome_of_mem B n hn
+  have hd := hdone n (hcover n hn) hrec
+  cases hdn : doneAt st' n with
+  | none => rw [hdn] at hd; cases hd
+  | some h =>
+    obtain ⟨f, ps, els, hsp, _, hl, hres⟩ := hinv.done n h hdn
+    have hN : specNode B N n = some (h, ps) := by
+      cases hs : specNode B N n with
+      | none => exact absurd hs (hall n (hcover n hn))
+      | some v =>
+        have := specNode_det B n N f _ _ hs hsp
+        rw [this]
+    exact ⟨h, ps, els, hN, hl, hres, specNode_leaves B N n h ps hN⟩
+
+/-- names the book does not define stand for themselves -/
+theorem undefined_is_itself (B : Book) (f : Nat) (x : Bytes) (h : B.lookup x = none) :
+    specNode B (f + 1) x = some (0, [⟨x, 1⟩]) := by
+  simp [specNode, h]
+
+/-- the paths of a recipe are the paths of its ingredients, each scaled by the ingredient's quantity
+    (sum over paths of the product of the quantities along the path, in recursive form) -/
+theorem paths_unfold (B : Book) (f : Nat) (x : Bytes) (els : Elements) (h : B.lookup x = some els) :
+    specNode B (f + 1) x = specList (specNode B f) els (0, []) := by
+  simp [specNode, h]
+
+/-- two books with the same distinct keys and the same entry under every key are equal -/
+theorem book_ext : ∀ (B₁ B₂ : Book), B₁.keys = B₂.keys → B₁.keys.Nodup → (∀ n ∈ B₁.keys, B₁.lookup n = B₂.lookup n) → B₁ = B₂ := by
+  intro B₁
+  induction B₁ with
+  | nil => intro B₂ hk _ _; cases B₂ with
+    | nil => rfl
+    | cons y ys => simp [Book.keys] at hk
+  | cons x xs ih =>
+    intro B₂ hk hnd hlk
+    cases B₂ with
+    | nil => simp [Book.keys] at hk
+    | cons y ys =>
+      obtain ⟨kx, vx⟩ := x
+      obtain ⟨ky, vy⟩ := y
+      simp only [Book.keys, List.map_cons, List.cons.injEq] at hk
+      simp only [Book.keys, List.map_cons, List.nodup_cons] at hnd
+      obtain ⟨rfl, hk'⟩ := hk
+      have hv : vx = vy := by
+        have := hlk kx (by simp [Book.keys])
+        simpa [Book.lookup, List.find?] using this
+      subst hv
+      congr 1
+      apply ih ys hk' hnd.2
+      intro n hn
+      have := hlk n (by simp only [Book.keys, List.map_cons]; exact List.mem_cons_of_mem _ hn)
+      have hne : (kx == n) = false := by
+        have : kx ≠ n := fun e => hnd.1 (e ▸ hn)
+        simpa using this
+      simpa [Book.lookup, List.find?, hne] using this
+
+/-- **Order independence.**  Any two visiting orders that cover the book give the same resolved book. -/
+theorem resolve_order_irrelevant (B : Book) (N : Nat) (o₁ o₂ : List Bytes) (hnd : B.keys.Nodup)
+    (h₁ : ∀ n ∈ B.keys, n ∈ o₁) (h₂ : ∀ n ∈ B.keys, n ∈ o₂)
+    (d₁ : ∀ n ∈ o₁, ¬ Chain B n N) (d₂ : ∀ n ∈ o₂, ¬ Chain B n N) :
+    resolveAll (N : Int) B o₁ = resolveAll (N : Int) B o₂ := by
+  obtain ⟨B₁, r₁, k₁, c₁⟩ := resolve_correct B N o₁ h₁ d₁
+  obtain ⟨B₂, r₂, k₂, c₂⟩ := resolve_correct B N o₂ h₂ d₂
+  rw [r₁, r₂]
+  congr 1
+  -- same keys, same entry under every key
+  have hlk : ∀ n ∈ B.keys, B₁.lookup n = B₂.lookup n := by
+    intro n hn
+    obtain ⟨h, ps, e₁, s₁, l₁, res₁, _⟩ := c₁ n hn
+    obtain ⟨h', ps', e₂, s₂, l₂, res₂, _⟩ := c₂ n hn
+    rw [s₁] at s₂
+    simp only [Option.some.injEq, Prod.mk.injEq] at s₂
+    obtain ⟨_, rfl⟩ := s₂
+    rw [l₁, l₂, resolved_unique ps e₁ e₂ res₁ res₂]
+  have hk : B₁.keys = B₂.keys := k₁.trans k₂.symm
+  rw [← k₁] at hnd hlk
+  exact book_ext B₁ B₂ hk hnd hlk
+
+/-! non-vacuity: a three-level diamond with a repeated ingredient, a negative and a fractional coefficient
+    and an empty recipe; two different visiting orders -/
+def a : Bytes := [97]
+def b : Bytes := [98]
+def c : Bytes := [99]
+def d : Bytes := [100]
+def x : Bytes := [120]
+def y : Bytes := [121]
+def demo : Book :=
+  [(a, [⟨b, 2⟩, ⟨c, -1⟩, ⟨b, (1 : Q) / 2⟩]), (b, [⟨d, 3⟩, ⟨x, 1⟩]), (c, [⟨d, 1⟩, ⟨y, 4⟩]), (d, [⟨x, 1⟩, ⟨y, 1⟩]), ([101], [])]
+
+def lookupAfter (order : List Bytes) (n : Bytes) : Option Elements :=
+  match resolveAll 10 demo order with
+  | .ok r => r.lookup n
+  | .error _ => none
+
+example : lookupAfter [a, b, c, d, [101]] a = some [⟨x, 9⟩, ⟨y, (5 : Q) / 2⟩] := by decide +kernel
+example : lookupAfter [[101], d, c, b, a] a = some [⟨x, 9⟩, ⟨y, (5 : Q) / 2⟩] := by decide +kernel
+example : ∀ n ∈ [a, b, c, d, [101]], (specNode demo 10 n).isSome := by decide +kernel
+
 end Hrano.C01
